@@ -19,6 +19,14 @@ HERE = os.path.dirname(os.path.dirname(os.path.abspath(__file__)))
 sys.path.insert(0, HERE)
 sys.setrecursionlimit(20000)
 
+try:
+    import ctypes
+    _shim = os.path.join(HERE, ".venv312", "arena_shim.so")
+    if os.path.exists(_shim) and not os.environ.get("VERIF_NO_SHIM"):
+        ctypes.PyDLL(_shim).vc_install_arena_cache()
+except Exception:      # noqa -- purely a performance aid
+    pass
+
 from harness import core  # noqa: E402
 import logging  # noqa: E402
 logging.disable(logging.CRITICAL)
@@ -27,18 +35,30 @@ sys.unraisablehook = lambda *a: None        # __del__ of half-built objects of a
 _TARGETS = []
 _FINDINGS = []
 _SEED = 0
+_TLIMIT = int(os.environ.get("VERIF_TARGET_SECONDS", "900"))
 
 
 def _worker(i):
     t = _TARGETS[i]
     core.limit_memory()
+    import signal
+
+    def _alarm(signum, frame):
+        raise core.Unsupported("time budget of the target exceeded (%ds)" % _TLIMIT)
+    signal.signal(signal.SIGALRM, _alarm)
+    signal.alarm(_TLIMIT)
     try:
         if hasattr(t, "run_custom"):
             return t.run_custom(_FINDINGS, _SEED)
         return core.run_target(t, _FINDINGS, _SEED)
+    except core.Unsupported as e:
+        return {"id": t.id, "unsupported": str(e), "obligations": 0, "discharged": 0, "refuted": [], "undecided": [],
+                "known": [], "functions": [], "paths": 0}
     except Exception as e:      # noqa
         return {"id": t.id, "engine_error": "worker crashed: %r\n%s" % (e, traceback.format_exc()), "obligations": 0,
                 "discharged": 0, "refuted": [], "undecided": [], "known": [], "functions": [], "paths": 0}
+    finally:
+        signal.alarm(0)
 
 
 def load_findings(pid):
